@@ -1,8 +1,4 @@
 // ---- payload-free model of crate::error (rewrite 10): same variants, same Ok/Err mapping ----
-pub struct IoError { pub kind: u8 }
-impl IoError {
-    pub fn new(kind: u8, msg: &str) -> (r: IoError) { IoError { kind } }
-}
 pub enum Error { Invalid, Read, Write, Internal, NotImplemented }
 pub type Result<T> = std::result::Result<T, Error>;
 impl Error {
